@@ -1,14 +1,14 @@
 SPECIFICATION Spec
 CONSTANTS
-  MaxH = 9
-  Page = 3
+  MaxH = 6
+  Page = 2
   Ahead = 2
   MaxCrash = 2
   MaxReset = 0
-  GCOn = TRUE
+  GCOn = FALSE
   MTB = 2
-  GCP = 2
-  JumpOn = FALSE
+  GCP = 1
+  JumpOn = TRUE
   Dev = {}
 INVARIANTS NoDead HeightBound RecoverOK DiskCoherent ResetConfluence ResumeOK MarkersFollowData
 CHECK_DEADLOCK FALSE
